@@ -632,6 +632,15 @@ def spec_func(ex, st, ctx, name, args, node):
         r = rval(args[0])
         n = as_int(args[1])
         return VBool(z3.Extract(z3.Select(st.heap.LS, r), 0, n) == z3.Extract(z3.Select(pre.heap.LS, r), 0, n))
+    if name == "isreversed":
+        # list a (in this state) is list b as it was at entry, reversed; same_contents(a, b): equal sequences
+        pre = ctx.pre
+        sa = z3.Select(st.heap.LS, rval(args[0]))
+        sb = z3.Select(pre.heap.LS, rval(args[1]))
+        return VBool(u_rev(sb) == sa)
+    if name == "same_contents":
+        pre = ctx.pre
+        return VBool(z3.Select(st.heap.LS, rval(args[0])) == z3.Select(pre.heap.LS, rval(args[1])))
     if name == "isbytes":
         return VBool(is_Opq(args[0]))          # bytes objects are opaque externals with a length
     if name == "isemptydict":
